@@ -669,8 +669,13 @@ class Update(object):
                 for _ in range(3):
                     run.one_pass()
                 phases.append(self.phase(run, new_text, sc['args']))
+            undelivered = self.delivery(run)
         finally:
             run.close()
+        if undelivered:
+            replay.update(kind='an active listener pool does not receive exactly the events its configuration subscribes to',
+                          delivery=undelivered[:8], log=repr(phases[-1]['log']))
+            self.violation(replay)
         # the file as it is now, by a reader of its own (after the simulated kernel is uninstalled)
         fresh = None
         if not sc['corrupt']:
@@ -707,6 +712,66 @@ class Update(object):
             cinfo = repr(e)
         return {'s0': s0, 's1': s1, 'out': out, 'log': list(run.log), 'after_reload': run.after_reload,
                 'after_reload_enc': run.after_reload_enc, 'cinfo': cinfo}
+
+    def delivery(self, run):
+        """Judged by delivery: one event of every concrete type is notified through the real
+        supervisor.events.notify; every active listener pool must buffer exactly those that are
+        instances of one of the types its (the file's) configuration lists, once each."""
+        from supervisor import events
+        from supervisor.process import EventListenerPool
+        pools = [(n, g) for n, g in run.sup.process_groups.items() if isinstance(g, EventListenerPool)]
+        if not pools:
+            return []
+        proc = None
+        for g in run.sup.process_groups.values():
+            for p in g.processes.values():
+                proc = p
+        anygroup = list(run.sup.process_groups.values())[0]
+        PS = events.ProcessStateEvent
+        samples = []
+        for name in dir(events.EventTypes):
+            t = getattr(events.EventTypes, name)
+            if name.startswith('_') or not isinstance(t, type):
+                continue
+            if [u for u in vars(events.EventTypes).values() if isinstance(u, type) and u is not t and issubclass(u, t)]:
+                continue        # abstract: has subtypes
+            try:
+                if issubclass(t, PS):
+                    ev = t(proc, 0)
+                elif issubclass(t, (events.ProcessLogEvent, events.ProcessCommunicationEvent)):
+                    ev = t(proc, 1, b'x')
+                elif issubclass(t, events.RemoteCommunicationEvent):
+                    ev = t('t', 'd')
+                elif issubclass(t, events.ProcessGroupEvent):
+                    ev = t('g')
+                elif issubclass(t, events.TickEvent):
+                    ev = t(0, run.sup)
+                else:
+                    ev = t()
+            except Exception:
+                continue
+            samples.append((name, ev))
+        bad = []
+        self.delivered = getattr(self, 'delivered', 0)
+        for pname, pool in pools:
+            saved = pool.event_buffer
+            for name, ev in samples:
+                if proc is None and hasattr(ev, 'process'):
+                    continue
+                pool.event_buffer = []
+                try:
+                    events.notify(ev)
+                except BaseException as e:
+                    bad.append('%s: notify(%s) raised %r' % (pname, name, e))
+                    continue
+                got = len([x for x in pool.event_buffer if x is ev])
+                want = 1 if any(isinstance(ev, t) for t in pool.config.pool_events) else 0
+                self.delivered += 1
+                if got != want:
+                    bad.append('pool %s (events=%s): %s delivered %d time(s), expected %d' % (
+                        pname, ','.join(t.__name__ for t in pool.config.pool_events), name, got, want))
+            pool.event_buffer = saved
+        return bad
 
     def offer_event(self, run):
         """every active listener pool must still be subscribed: offer one event of each type it
